@@ -38,6 +38,12 @@ func (fr *Frame) loopModSet(li *loopInfo) map[string]bool {
 	set := map[string]bool{}
 	for b := range li.blocks {
 		vc.modSetBlock(fr.fn, b, set, map[*ssa.Function]bool{})
+		for _, in := range b.Instrs {
+			// the set of keys a map range inside the loop has yielded
+			if nx, ok := in.(*ssa.Next); ok && !nx.IsString {
+				set[fr.rvFam(nx.Iter.(*ssa.Range))] = true
+			}
+		}
 	}
 	// ghost state assigned by site clauses that can fire inside the loop
 	reachesTop := fr == fr.top || set["*"]
@@ -201,6 +207,7 @@ func (fr *Frame) checkInvariant(h, from *ssa.BasicBlock, kind string) {
 	fr.curR = fr.edgeCond(from, h)
 	env := fr.envHere(fmt.Sprintf("loop %d invariant of %s", fr.loopOrd[h], funcKey(fr.fn)))
 	env.blk, env.idx = from, len(from.Instrs)
+	env.loopHdr = h
 	// phi values along this edge
 	for _, in := range h.Instrs {
 		phi, ok := in.(*ssa.Phi)
@@ -240,7 +247,7 @@ var headerStates = map[*Frame]map[*ssa.BasicBlock]*State{}
 
 func (fr *Frame) headerEnv(h *ssa.BasicBlock) *Env {
 	st := headerStates[fr][h]
-	e := &Env{vc: fr.vc, fr: fr, vars: map[string]Val{}, heap: st.heap, now: st.now, blk: h, idx: 0, what: "loop header", reach: fr.reach[h]}
+	e := &Env{vc: fr.vc, fr: fr, vars: map[string]Val{}, heap: st.heap, now: st.now, blk: h, idx: 0, what: "loop header", reach: fr.reach[h], loopHdr: h}
 	if fr.entry != nil {
 		e.old = fr.entry.heap
 	}
